@@ -1,0 +1,54 @@
+//go:build verif
+
+// Contracts for the deductive verification machinery in /verif (comment-only; compiled only with -tags=verif).
+package source
+
+// ---------------------------------------------------------------------------
+// C08: continuation of a union of datasets: one token per member, advanced member by member
+
+//@ inline (*UnionDatasetContinuation).ActiveToken
+//@ inline (*StringDatasetContinuation).GetToken
+
+//@ unit (*UnionDatasetContinuation).Update
+//@   prop C08
+//@   requires c != nil && 0 <= c.activeIdx && c.activeIdx < len(c.Tokens)
+//@   requires forall i int :: 0 <= i && i < len(c.Tokens) ==> c.Tokens[i] != nil
+//@   ensures [active-token-replaced] c.Tokens[old(c.activeIdx)] != nil && c.Tokens[old(c.activeIdx)].Token == newToken
+//@   ensures [other-members-untouched] len(c.Tokens) == old(len(c.Tokens)) && (forall k int :: 0 <= k && k < len(c.Tokens) && k != old(c.activeIdx) ==> c.Tokens[k] == old(c.Tokens[k]))
+//@   ensures [advance-only-when-the-token-did-not-move] c.activeIdx == old(c.activeIdx) || (c.activeIdx == old(c.activeIdx) + 1 && newToken == old(c.Tokens[c.activeIdx].Token))
+//@   ensures [stays-on-a-member-that-moved] newToken != old(c.Tokens[c.activeIdx].Token) ==> result && c.activeIdx == old(c.activeIdx)
+//@   ensures [done-only-after-the-last-member-stopped-moving] !result ==> old(c.activeIdx) == len(c.Tokens) - 1 && newToken == old(c.Tokens[c.activeIdx].Token)
+//@   ensures [index-stays-in-range] 0 <= c.activeIdx && c.activeIdx < len(c.Tokens)
+//@   safe index
+
+// token conversions are the identity on non-negative ints (strconv.Atoi . strconv.Itoa)
+//@ unit (*StringDatasetContinuation).AsIncrToken
+//@   prop C08
+//@   requires c != nil
+//@   ensures [empty-token-is-zero] c.Token == "" ==> result == 0
+//@   ensures [token-round-trip] forall n int :: 0 <= n && n <= 9223372036854775807 && c.Token == itoa(n) && c.Token != "" ==> result == n
+
+// the continuation handed to the pipeline together with a batch is the one the read of that batch returned
+//@ assumed (*server.Dataset).ProcessChanges
+//@   pure
+//@ assumed (*server.Dataset).MapEntities
+//@   pure
+//@ assumed (*server.DsManager).IsDataset
+//@   pure
+//@ assumed (*server.DsManager).GetDataset
+//@   pure
+//@ assumed (*server.Dataset).IsProxy
+//@   pure
+//@ assumed (source.DatasetContinuation).AsIncrToken
+//@   pure
+//@ unit (*DatasetSource).ReadEntities
+//@   prop C08
+//@   ghost incrG bool = false
+//@   ghost contG int = 0
+//@   requires datasetSource != nil
+//@   dyncall processEntities pure
+//@   at call ProcessChanges#2
+//@     ghost incrG := true
+//@     ghost contG := $result0
+//@   at call processEntities#1 before
+//@     assert [token-handed-on-is-the-one-the-read-returned] incrG ==> cont != nil && cont.Token == itoa(contG)
